@@ -64,34 +64,26 @@ Theorem C05_undeliverable_no_owner : forall cf st c m,
 Proof. exact no_owner_error. Qed.
 Print Assumptions C05_undeliverable_no_owner.
 
-(* refused on a plain history: the refused message leaves no trace on the ledger, hence (C09_no_reply_only_for_open_calls)
-   no later NoReply can be caused by it *)
+(* a refused message leaves no trace on the ledger, hence (C09_no_reply_only_for_open_calls) no later NoReply is caused by it *)
 Theorem C05_refused_opens_nothing : forall T tr c m o a b s,
   (forall x, fwd_to o x = false) -> age T ((ESend c m, o) :: tr) a b s = age T tr a b s.
 Proof. intros T tr c m o a b s H. simpl. rewrite !H, !andb_false_r. reflexivity. Qed.
 Print Assumptions C05_refused_opens_nothing.
 
-(* The full claim "an undeliverable call produces exactly ONE error with its serial" over a whole history, which the
-   faithful model does not meet (finding F7): if a wrote a single message with serial s, at most one error with reply
-   serial s ever reaches a. *)
-Definition C05_undeliverable_full_statement : Prop := forall cf h a s,
+(* "an undeliverable call produces exactly ONE error with its serial", over a whole history and for EVERY history: if a wrote
+   a single message with serial s, at most one error with reply serial s ever reaches a.  (Before the fix for finding F7
+   this failed: NotSupported followed by NoReply for the same serial; the former witness is the regression example below.) *)
+Theorem C05_undeliverable : forall cf h a s,
   sends_with_serial h a s = 1%nat -> (errors_in (trace_of cf h) a s <= 1)%nat.
-
-(* proved part: histories without fds / reply-serial-carrying calls *)
-Theorem C05_undeliverable_partial : forall cf h a s,
-  plain h = true -> sends_with_serial h a s = 1%nat -> (errors_in (trace_of cf h) a s <= 1)%nat.
 Proof. exact one_error_per_serial. Qed.
-Print Assumptions C05_undeliverable_partial.
+Print Assumptions C05_undeliverable.
 
 Definition cfg_p : cfg := mkCfg false 4 None.
 Definition call_fd : msg := mkMsg TCall false false 7 0 (DUnique 1) 1 1.
 Definition h_two : list event := [EConnect true; EConnect false; ESend 0 call_fd; EDisconnect 1].
-
-Theorem C05_two_errors_refuted :
-  exists cf h a s, sends_with_serial h a s = 1%nat /\ errors_in (trace_of cf h) a s = 2%nat /\
-    trace_of cf h = [(EDisconnect 1, [(0, OErr ENoReply 7)]); (ESend 0 call_fd, [(0, OErr ENotSupported 7)]); (EConnect false, []); (EConnect true, [])].
-Proof. exists cfg_p, h_two, 0, 7. vm_compute. auto. Qed.
-Print Assumptions C05_two_errors_refuted.
+Example ex_f7_one_error :
+  trace_of cfg_p h_two = [(EDisconnect 1, []); (ESend 0 call_fd, [(0, OErr ENotSupported 7)]); (EConnect false, []); (EConnect true, [])].
+Proof. vm_compute. reflexivity. Qed.
 
 (* non-vacuity *)
 Definition eav_all : rule := mkRule true None None None.
